@@ -77,6 +77,7 @@ struct Fiber {
     bool detached;
     const void* bkey;       // futex address / sem / event / joined fiber
     uint64_t wake_ns;       // for B_SLEEP
+    uint64_t sleep_step;    // step at which the sleep began
     void* sp;
     char* stack_lo;         // lowest usable address
     size_t stack_size;
@@ -119,7 +120,7 @@ static Rng g_rng_prog, g_rng_sched, g_rng_clock;
 static uint64_t g_step = 0, g_switches = 0, g_preempts = 0, g_now = 0, g_hash = 1469598103934665603ull;
 static uint64_t g_sig = 1469598103934665603ull;
 static uint64_t g_choice_no = 0;
-static uint64_t g_last_progress = 0, g_last_progress_step = 0;
+static uint64_t g_last_progress = 0, g_last_progress_step = 0, g_user_mark = 0;
 static uint64_t g_mmap_calls = 0;
 static uint64_t g_time_salt = 0;
 static bool g_trace = false, g_replay = false, g_faults_on = true;
@@ -143,6 +144,7 @@ static const char* const kStratName[] = {"rw", "burst", "pct", "stall", "hunt"};
 static int g_hunt_victim = -1, g_hunts_left = 0;
 static const void* g_hunt_addr = nullptr;
 static uint64_t g_hunt_release_at = 0;
+static int g_force_fiber = -1, g_force_left = 0;   // burst granted to a fiber that was starved
 static int g_hunt_pending = -1;     // fiber that has just loaded a watched word: held from its next point on
 static int g_stale_left = 0;        // budget of such holds per run
 static bool g_hunt_stale = false;   // the current hold is of that kind
@@ -538,6 +540,8 @@ static void describe_blocked(char* buf, size_t n) {
         static const char* const bk[] = {"-", "futex", "sem", "join", "event", "sleep", "quiesce"};
         pos += snprintf(buf + pos, n - pos, "f%d(%s%s):%s ", f->id, f->name, f->scenario ? "" : ",worker",
                         f->state == F_DONE ? "done" : f->state == F_RUNNABLE ? "runnable" : bk[f->bkind]);
+        if (f->state == F_BLOCKED && f->bkind == B_SLEEP && pos + 60 < n)
+            pos += snprintf(buf + pos, n - pos, "(until t=%llu ns, now %llu) ", (unsigned long long)f->wake_ns, (unsigned long long)g_now);
     }
 }
 
@@ -554,9 +558,15 @@ static Fiber* pick_default(int kind, Fiber** run, int nrun) {
 static Fiber* pick_strategy(int kind, Fiber** run, int nrun) {
     Fiber* cur = g_cur;
     bool cur_ok = cur && cur->state == F_RUNNABLE;
-    // starvation bound (fairness)
+    // starvation bound (fairness).  A fiber that was starved gets a short burst of its own, and the bound is jittered:
+    // with a fixed period and single steps a starved fiber that polls a lock which another fiber takes and releases in a
+    // tight loop without any pause (tbbmalloc's findBlock retry) met the lock in the same phase every time: a resonance of
+    // the scheduler, not of the code under test.
+    if (g_force_left > 0 && g_force_fiber >= 0 && g_force_fiber < g_nfib && g_fibers[g_force_fiber]->state == F_RUNNABLE &&
+        kind != K_YIELD && kind != K_PAUSE) { --g_force_left; return g_fibers[g_force_fiber]; }
+    g_force_left = 0;
     {
-        uint64_t bound = 2000ull * (uint64_t)(nrun + 1);
+        uint64_t bound = 2000ull * (uint64_t)(nrun + 1) + g_rng_sched.below(1009);
         Fiber* starving = nullptr;
         for (int i = 0; i < nrun; ++i)
             if (run[i] != cur && g_step - run[i]->last_run_step > bound &&
@@ -564,7 +574,7 @@ static Fiber* pick_strategy(int kind, Fiber** run, int nrun) {
                 !(g_strategy == S_STALL && run[i]->id == g_stall_victim && g_step >= g_stall_from && g_step < g_stall_to) &&
                 !(g_strategy == S_HUNT && run[i]->id == g_hunt_victim && g_step < g_hunt_release_at))
                 starving = run[i];
-        if (starving) return starving;
+        if (starving) { g_force_fiber = starving->id; g_force_left = 3 + (int)g_rng_sched.below(40); return starving; }
     }
     bool spin = (kind == K_YIELD || kind == K_PAUSE);
     switch (g_strategy) {
@@ -623,7 +633,13 @@ static void schedule(int kind) {
         Fiber* run[MAX_FIBERS]; int nrun = 0;
         for (int i = 0; i < g_nfib; ++i) {
             Fiber* f = g_fibers[i];
-            if (f->state == F_BLOCKED && f->bkind == B_SLEEP && f->wake_ns <= g_now) wake(f);
+            // a sleeper wakes when the simulated clock reaches its time, and in any case after 20 000 schedule points: the clock
+            // then jumps (spinning fibers that only load and store advance it by almost nothing, and a thread that spins
+            // on something the sleeper holds would otherwise never let its 1 ms pass)
+            if (f->state == F_BLOCKED && f->bkind == B_SLEEP && (f->wake_ns <= g_now || g_step - f->sleep_step > 20000)) {
+                if (f->wake_ns > g_now) g_now = f->wake_ns;
+                wake(f);
+            }
             if (f->state == F_RUNNABLE) run[nrun++] = f;
         }
         if (nrun == 0) { idle_or_deadlock(); continue; }
@@ -677,6 +693,15 @@ void point_slow(int kind, const void* addr) {
         char buf[1500]; describe_blocked(buf, sizeof buf);
         fail("livelock", "no state-changing step for %llu steps (all runnable fibers only read/spin): %s",
              (unsigned long long)(g_step - g_last_progress_step), buf);
+    }
+    // bounded liveness: under the fair scheduler no body point, harness event or thread start / exit for a third of the
+    // step budget (millions of points) although threads keep changing internal state (a spinning dispatcher toggles
+    // locks and flags, which the criterion above counts as progress)
+    if (kind == K_USER || kind == K_THR_CREATE || kind == K_THR_EXIT) g_user_mark = g_step;
+    else if (g_step - g_user_mark > g_cfg.step_budget / 3) {
+        char buf[1500]; describe_blocked(buf, sizeof buf);
+        fail("livelock", "no user-visible progress (no body point, harness event, thread start or exit) for %llu steps under a fair scheduler although internal state keeps changing: %s",
+             (unsigned long long)(g_step - g_user_mark), buf);
     }
     if (g_step > g_cfg.step_budget) {
         char buf[1500]; describe_blocked(buf, sizeof buf);
@@ -964,7 +989,7 @@ int sim_nanosleep(const struct timespec* ts, struct timespec* rem) {
     if (!g_active || !g_cur) return ::nanosleep(ts, rem);
     point(K_SLEEP, nullptr);
     uint64_t ns = (uint64_t)ts->tv_sec * 1000000000ull + (uint64_t)ts->tv_nsec;
-    g_cur->wake_ns = g_now + ns;
+    g_cur->wake_ns = g_now + ns; g_cur->sleep_step = g_step;
     g_cur->state = F_BLOCKED; g_cur->bkind = B_SLEEP; g_cur->bkey = nullptr;
     block_here();
     return 0;
